@@ -9,4 +9,6 @@
 //@include inc/tree_fns.rs
 //@include inc/uncompact_spec.rs
 //@include inc/uncompact_fns.rs
+//@include inc/compact_spec.rs
+//@include inc/compact_fns.rs
 fn main() {}
